@@ -22,6 +22,9 @@ def _rowbytes(arrs, j):
 def _expand(mask, arr, fill=np.nan):
     """place a compressed array back at the True positions of mask"""
     arr = np.asarray(arr)
+    if arr.ndim == 0 or arr.shape[0] != int(np.count_nonzero(mask)):
+        # numpy would broadcast a length-1 array silently: a stage returning the wrong number of entries must not look consistent
+        raise ValueError(f"stage returned {arr.shape} entries for {int(np.count_nonzero(mask))} selected events")
     out = np.full(mask.shape + arr.shape[1:], fill, dtype=float)
     out[mask] = arr
     return out
